@@ -28,6 +28,10 @@ CHECKS = {
    "(A) the complete operator x boundary-value (x end value) query space for case-sensitive/-insensitive string, string-array, integer, float and nested-path indexes plus all _and/_or trees of depth<=2 over a 6-leaf pool on a fixed 13-point data set; (B) breadth-first search to depth 5 (thorough 8, with state de-duplication on the full bucket contents) over write histories that insert, change, remove, re-add and delete indexed fields and reuse node ids, with a ~400-query battery after every batch; both storage backends; every answer compared with direct evaluation of the predicate on the model documents.",
    "values outside the boundary alphabets; only queries that pass Validate(); NaN not stored",
    "explicit-state BFS over write histories + exhaustive query-space enumeration vs reference evaluation", "DESIGN.md §4 C02"),
+ "C04": (True, "seqx", "model_checking",
+   "Breadth-first search to depth 3 (thorough 4) over write histories on a flat index for 7 (thorough 13) metric/quantiser combinations x 4 cache states (warm, reopened cold before every query, disabled, 1-byte limit); after every batch 4 queries x limits x weights x pre-filters must return exactly the k nearest admissible points under a float64 definition of the index distance (learned thresholds read back from the bucket), ties at the cut either way.",
+   "product quantiser not covered; vectors from small per-metric pools; float32 tolerance",
+   "explicit-state BFS over write histories x configurations vs brute-force k-NN reference", "DESIGN.md §4 C04"),
 }
 
 props = [json.loads(l) for l in open(os.path.join(HERE, "properties.jsonl"))]
